@@ -177,8 +177,15 @@ func (e *exec) build() error {
 			e.model[i] = &mCache{parent: e.model[nd.Parent], d: map[string]dirty{}}
 		case "prefix":
 			p, _ := hex.DecodeString(nd.Prefix)
-			e.real[i] = prefix.NewStore(e.real[nd.Parent], p)
-			e.model[i] = &mPrefix{parent: e.model[nd.Parent], p: p}
+			// callers hand prefix stores slices with spare capacity (types.Subspace does): every other prefix
+			// node gets one, so that code appending to the prefix in place is exercised
+			rp := p
+			if i%2 == 1 {
+				rp = make([]byte, len(p), len(p)+16)
+				copy(rp, p)
+			}
+			e.real[i] = prefix.NewStore(e.real[nd.Parent], rp)
+			e.model[i] = &mPrefix{parent: e.model[nd.Parent], p: append([]byte{}, p...)}
 		case "gas":
 			var m stypes.GasMeter
 			l := &ledger{}
